@@ -7,6 +7,7 @@ import (
 	"encoding/json"
 	"flag"
 	"fmt"
+	"go/types"
 	"os"
 	"os/exec"
 	"path/filepath"
@@ -24,6 +25,36 @@ type knownFinding struct {
 	Obligation string // substring match on the obligation name
 	Path       string // optional: substring of the path description
 	Text       string
+}
+
+// touchesLockDiscipline: the function stores to a location declared guarded or immutable.
+func touchesLockDiscipline(p *Program, fn *ssa.Function) bool {
+	if fn == nil {
+		return false
+	}
+	for _, b := range fn.Blocks {
+		for _, in := range b.Instrs {
+			s, ok := in.(*ssa.Store)
+			if !ok {
+				continue
+			}
+			key := ""
+			switch a := s.Addr.(type) {
+			case *ssa.FieldAddr:
+				if pt, ok := a.X.Type().Underlying().(*types.Pointer); ok {
+					if st, ok := pt.Elem().Underlying().(*types.Struct); ok {
+						key = typeKey(pt.Elem()) + "." + st.Field(a.Field).Name()
+					}
+				}
+			case *ssa.Global:
+				key = "global:" + a.String()
+			}
+			if _, g := p.Guarded[key]; g || p.Immutable[key] {
+				return true
+			}
+		}
+	}
+	return false
 }
 
 func loadKnownFindings(path string) []knownFinding {
@@ -118,6 +149,10 @@ func cmdCheck(args []string) {
 		}
 		if hasTag(contractTags(c), *prop) {
 			keys = append(keys, k)
+		} else if *prop == "C16" && c.Kind == "func" && c.Mode != "trusted" && (c.Thread == "any" || touchesLockDiscipline(p, p.Funcs[k])) {
+			// lock discipline: every function that may run on a request thread, and every
+			// function that stores to a guarded or immutable location
+			keys = append(keys, k)
 		}
 	}
 	// transitive callees under (non-trusted) contract: their support and safety
@@ -181,6 +216,9 @@ func cmdCheck(args []string) {
 				if ob.Cover || ob.Result.Status == "unsat" || ob.Result.Status == "skipped" || ob.Result.Status == "" {
 					continue
 				}
+				if ob.Kind == "guard" || (len(ob.Tags) == 1 && ob.Tags[0] == "C16") {
+					continue // never assumed, so it hides nothing
+				}
 				if unmaskNames[fr.Fn] == nil {
 					unmaskNames[fr.Fn] = map[string]bool{}
 				}
@@ -212,8 +250,11 @@ func cmdCheck(args []string) {
 						continue
 					}
 					ob.Text += " [hidden behind an earlier failed obligation of the same path]"
-					fr.Obls = append(fr.Obls, ob)
 				}
+				// the re-run supersedes the first run: same obligations, but nothing is
+				// checked under a hypothesis known to be false (this also repairs the
+				// reachability covers, which a false hypothesis makes vacuous)
+				fr.Obls, fr.Errs, fr.Paths = fr2.Obls, fr2.Errs, fr2.Paths
 			}
 		}
 	}
@@ -491,6 +532,11 @@ func cmdCheck(args []string) {
 		"A3 allocation succeeds and returns fresh storage",
 		"sync.Mutex Lock/Unlock are no-ops (sequential semantics); log output is not modelled; termination is not proved",
 		"callers see only callee contracts (modular); loops are cut at their invariants",
+	}
+	if *prop == "C16" {
+		assumptions = append(assumptions,
+			"A-lock (C16) the lock discipline is checked access by access; that it implies data-race freedom and whole-frame snapshots is the single-writer argument of DESIGN.md 12.13, not a mechanised proof; interleavings are not enumerated; Lock's blocking and deadlock are not modelled; slice element accesses are covered by call-site assertions and frame conditions, not by per-access lock obligations; a request thread is assumed to find a fully constructed processor",
+		)
 	}
 	if *prop == "C18" || *prop == "C14" {
 		assumptions = append(assumptions,
